@@ -162,6 +162,23 @@ def gen_focus_case(rng, prop):
             r = rng.random()
             typed.append([] if r < 0.05 else L(rng.choice(["1", "2", "3", "", " x ", "hello world", "c", "r", "é世"])))
         return [3000, specs, typed, [], 0, [[0, [3, 0, 4], [3, 1, 0]], [1]]]
+    if prop == "C09":
+        # the ways an application ends: last screen closed (plain or modal, also pushed from outside run() on an
+        # empty stack), exit / force-quit from callbacks at some modal depth, the quit key with and without dialog,
+        # run() on an empty stack with and without the configuration option
+        n = 4
+        specs = []
+        for i in range(n):
+            nxt = (i + 1) % n
+            stop = rng.choice([[9], [10], [5], [4], [8]])
+            specs.append(spec(inputs=[("1", [[1, nxt, 0]], [0]), ("2", [], [2]), ("3", [stop], rng.choice([[0], [2], [1]]))],
+                              closed=[[14, i]] if rng.random() < 0.3 else [], refresh=[[15, 3, [], [stop]]] if rng.random() < 0.1 else []))
+        typed = [L(rng.choice(["1", "1", "2", "2", "3", "c", "q", "x"])) for _ in range(rng.randrange(2, 14))]
+        run_empty = 1 if rng.random() < 0.5 else 0
+        first = rng.choice([[0, [3, 0, 0]], [0, [1, 0, 0]], [0, [1, 0, 0], [3, 1, 0]], [0], [0, [0, 1, 0]]])
+        acts = [first, [1]] + ([[1]] if rng.random() < 0.3 else [])
+        quit_ = [n - 1] if rng.random() < 0.3 else []
+        return [3000, specs, typed, quit_, run_empty, acts]
     # C04 / C17: many stack operations from input
     n = 4
     specs = []
@@ -205,19 +222,27 @@ def gen_adv_case(rng, with_error=False, with_password=False):
             t = rng.choice(dialogs) if rng.random() < 0.75 else rng.randrange(n)
             op = rng.choice([1, 1, 1, 0, 0, 2, 3])          # push modal / push / replace / schedule
             cmds = [[op, t, rng.choice([0, 0, 7])]]
-            if rng.random() < 0.15:
-                cmds.append([rng.choice([1, 0]), rng.choice(dialogs), 0])      # two dialogs stacked by one handler
-            inputs.append((key, cmds, rng.choice([[0], [0], [0], [1]])))
+            ret = [0]
+            if op == 1:                                     # a modal push returns when the dialog is closed
+                if rng.random() < 0.3:
+                    cmds.append([rng.choice([1, 0]), rng.choice(dialogs), 0])      # then the next dialog
+                else:
+                    ret = rng.choice([[0], [1]])
+            elif op == 3:
+                ret = [1]                                   # schedule_screen does not redraw by itself
+            elif rng.random() < 0.06:
+                ret = [1]                                   # a second render signal: the second prompt is refused
+            inputs.append((key, cmds, ret))
         specs.append(spec(inputs=inputs, default=([], None if rng.random() < 0.85 else [3]),
                           closed=[[14, 3]] if rng.random() < 0.1 else [], pages=rng.choice([0, 0, 0, 1])))
     quit_ = []
     r = rng.random()
-    if r < 0.55:
+    if r < 0.65:
         yn = [d for d in dialogs if kinds[d] == "yesno"]
         quit_ = [rng.choice(yn)] if yn and rng.random() < 0.8 else [rng.choice(dialogs)]
-    elif r < 0.65:
-        quit_ = [0]
-        specs[0] = spec(inputs=[("yes", [[13, 1]], [2]), ("no", [[13, rng.choice([2, 3])]], [2])])
+    elif r < 0.75 and npl >= 2:
+        quit_ = [npl - 1]                                   # a hand-written quit dialog
+        specs[npl - 1] = spec(inputs=[("yes", [[13, 1]], [2]), ("no", [[13, rng.choice([2, 3])]], [2])])
     first = [0] + [rng.choice(dialogs) for _ in range(rng.choice([0, 0, 1, 2]))]
     if rng.random() < 0.3:
         rng.shuffle(first)
@@ -225,15 +250,15 @@ def gen_adv_case(rng, with_error=False, with_password=False):
     typed = []
     for _ in range(rng.randrange(3, 18)):
         r = rng.random()
-        if r < 0.25:
+        if r < 0.3:
             typed.append(L(rng.choice(KEYS)))
-        elif r < 0.55:
+        elif r < 0.6:
             typed.append(L(rng.choice(["yes", "no"])))
-        elif r < 0.65:
+        elif r < 0.68:
             typed.append(L("q"))
         elif r < 0.72:
             typed.append(L(rng.choice(["c", "r"])))
-        elif r < 0.96:
+        elif r < 0.97:
             typed.append(L(rng.choice(words + ["YES", " yes", "zz"])))
         else:
             typed.append([])
